@@ -7,7 +7,7 @@ for dir in /verif/seeded/${1}*/; do
   props=$(python3 -c "import json;print(' '.join(json.load(open('$dir/meta.json')).get('detected_by',[])))")
   d=$(mktemp -d /tmp/am-XXXX)
   git -C /repo worktree add -q --detach $d HEAD || continue
-  if ( cd $d && git apply $dir/patch.diff 2>/dev/null ); then
+  if ( cd $d && ( git apply $dir/patch.diff 2>/dev/null || git apply --3way $dir/patch.diff 2>/dev/null ) ); then
     for p in $props; do
       out=$(VERIF_REPO=$d /verif/check $p quick 2>&1)
       n=$(echo "$out" | grep -c '^VIOLATION')
